@@ -338,6 +338,53 @@ func randShuffle(x *Exec, st *State, site ssa.Instruction, fn *ssa.Function, arg
 func (x *Exec) permute(st *State, s Val, sorted bool) {
 	fam := st.heap.Get("elem.int", 2, SInt)
 	n, ok := s.Len.IntVal()
+	if !ok && x.hasCfg {
+		// length bounded by the configuration value: guarded permutation over B positions
+		B := int64(x.cfgVal)
+		st1 := &State{pc: st.pc, heap: st.heap, alloc: st.alloc}
+		x.oblige(st1, "safety", fmt.Sprintf("permute-bound#%d", len(x.obls)), Le(s.Len, IntLit(B)), "slice being permuted has at most "+fmt.Sprint(B)+" elements")
+		x.assume(st, Le(s.Len, IntLit(B)))
+		olds := make([]*Term, B)
+		news := make([]*Term, B)
+		ps := make([]*Term, B)
+		nf := fam
+		for i := int64(0); i < B; i++ {
+			olds[i] = fam.Select([]*Term{s.Arr, Add(s.Off, IntLit(i))})
+		}
+		for i := int64(0); i < B; i++ {
+			in := Lt(IntLit(i), s.Len)
+			news[i] = FreshVar("perm", SInt)
+			ps[i] = FreshVar("perm.p", SInt)
+			nf = nf.Store([]*Term{s.Arr, Add(s.Off, IntLit(i))}, Ite(in, news[i], olds[i]))
+			x.assume(st, Implies(in, And(Le(IntLit(0), ps[i]), Lt(ps[i], s.Len))))
+			pick := olds[B-1]
+			for k := B - 2; k >= 0; k-- {
+				pick = Ite(Eq(ps[i], IntLit(k)), olds[k], pick)
+			}
+			x.assume(st, Implies(in, Eq(news[i], pick)))
+			for j := int64(0); j < i; j++ {
+				x.assume(st, Implies(in, Neq(ps[i], ps[j])))
+			}
+		}
+		// the inverse direction (a permutation is onto): every old element has a new position
+		for j := int64(0); j < B; j++ {
+			in := Lt(IntLit(j), s.Len)
+			q := FreshVar("perm.q", SInt)
+			x.assume(st, Implies(in, And(Le(IntLit(0), q), Lt(q, s.Len))))
+			pick := news[B-1]
+			for k := B - 2; k >= 0; k-- {
+				pick = Ite(Eq(q, IntLit(k)), news[k], pick)
+			}
+			x.assume(st, Implies(in, Eq(olds[j], pick)))
+		}
+		if sorted {
+			for i := int64(0); i+1 < B; i++ {
+				x.assume(st, Implies(Lt(IntLit(i+1), s.Len), Le(news[i], news[i+1])))
+			}
+		}
+		st.heap.Set("elem.int", nf)
+		return
+	}
 	if !ok {
 		// symbolic length: contents become unknown but membership is preserved both ways
 		nb := freshBase("elem.int!perm", 2, SInt)
